@@ -36,6 +36,8 @@ def jobs(tier, seed):
             out.append({"kind": "random", "version": v, "seed": seed, "i": i,
                         "n": 40000 if tier == "thorough" else 6000})
     out.append({"kind": "monotone"})
+    for i in range(2 if tier == "quick" else 8):
+        out.append({"kind": "threads", "seed": seed, "i": i})
     return out
 
 
@@ -261,6 +263,58 @@ def run_random(job, res):
     res.count("random_payload_cases", job["n"])
 
 
+def run_threads(job, res):
+    """The verdict is a function of (line, version): it must not depend on what another thread validates at the same
+    time (two gateways in one process; the application thread sending a command while the poll thread handles a line)."""
+    import sys
+    import threading
+
+    rng = core.rng_for("c03-threads", job["seed"], job["i"])
+    cases = []
+    for v in spec.VERSIONS:
+        for t in (0, 1, 2, 3):
+            for s_ in range(0, maxsub(v, t) + 1, 1 if t == 1 else 3):
+                rule = spec.rule_for(v, t, s_)
+                for p, exp in (spec.corpus(rule) if rule else [("1", False)])[:6]:
+                    c = 255 if t in (0, 3) else 1
+                    cases.append((f"1;{c};{t};0;{s_};{p}", v))
+    rng.shuffle(cases)
+    cases = cases[:1500]
+    base = {}
+    for line, v in cases:
+        r = lib_validate(line, v)
+        base[(line, v)] = r if isinstance(r, str) else "exc"
+    diffs = []
+    counts = [0, 0]
+
+    def worker(k, order):
+        for _ in range(3):
+            for line, v in order:
+                r = lib_validate(line, v)
+                r = r if isinstance(r, str) else "exc"
+                counts[k] += 1
+                if r != base[(line, v)]:
+                    diffs.append((line, v, base[(line, v)], r))
+
+    old = sys.getswitchinterval()
+    sys.setswitchinterval(1e-5)
+    try:
+        a = threading.Thread(target=worker, args=(0, cases))
+        b = threading.Thread(target=worker, args=(1, list(reversed(cases))))
+        a.start()
+        b.start()
+        a.join(600)
+        b.join(600)
+    finally:
+        sys.setswitchinterval(old)
+    res.evals += sum(counts)
+    res.count("concurrent_validations", sum(counts))
+    for line, v, was, now in diffs[:5]:
+        res.violation(f"verdict-depends-on-concurrent-validation:{was}->{now}",
+                      f"{line!r} ({v}) is {was} when validated alone and {now} while another thread validates other lines", {"version": v, "line": line, "phase": "threads"})
+    res.nontrivial(("threads", job["i"]))
+
+
 def run_monotone(job, res):
     """Sub-types defined in version v stay defined in every later version."""
     prev = None
@@ -295,7 +349,7 @@ def run(job):
     for v in spec.VERSIONS:
         get_const(v)
     {"headers": run_headers, "corpus": run_corpus, "child": run_child, "effect": run_effect,
-     "random": run_random, "monotone": run_monotone}[job["kind"]](job, res)
+     "random": run_random, "monotone": run_monotone, "threads": run_threads}[job["kind"]](job, res)
     return res
 
 
@@ -309,6 +363,8 @@ def replay(case):
         run_child({"version": case["version"]}, res)
     elif ph == "effect":
         run_effect({"version": case["version"], "seed": 0}, res)
+    elif ph == "threads":
+        run_threads({"seed": 0, "i": 0}, res)
     else:
         run_monotone({}, res)
     return res
@@ -326,9 +382,10 @@ def finish(agg, tier):
         "floors": [("decided_judged", c.get("decided_judged", 0), 100000),
                    ("corpus_cases", c.get("corpus_cases", 0), 3000),
                    ("child_schema_calls", c.get("child_schema_calls", 0), 5000),
-                   ("effect_cases", c.get("effect_cases", 0), 500)],
+                   ("effect_cases", c.get("effect_cases", 0), 500),
+                   ("concurrent_validations", c.get("concurrent_validations", 0), 10000)],
         "assumptions": ["vf/spec.py encodes the published serial API for 1.4-2.2; payload spellings the statement does "
                         "not fix (signs, blanks, exponents, case variants) are executed but not judged",
                         "exhaustive refers to the header product only"],
-        "show": ["decided_judged", "undecided_executed", "corpus_cases", "child_schema_calls", "effect_cases"],
+        "show": ["decided_judged", "undecided_executed", "corpus_cases", "child_schema_calls", "effect_cases", "concurrent_validations"],
     }
